@@ -293,8 +293,20 @@ func (c *cloner) ptr(p *Value) *Value {
 func cloneSnapshot(snap *initSnapshot, tb *term.B) (*initSnapshot, bool, string) {
 	c := &cloner{tb: tb, cells: map[*Value]*Value{}, maps: map[*Map]*Map{}, chans: map[*Chan]*Chan{}, clos: map[*Closure]*Closure{},
 		ok: true, seenWin: map[uintptr]int{}, seenPtr: map[*Value]bool{}, seenMap: map[*Map]bool{}, seenClo: map[*Closure]bool{}, seenCh: map[*Chan]bool{}}
-	for _, p := range snap.globals {
-		c.scan(p)
+	// deterministic traversal order: constants must be interned in the same order on every path
+	gl := make([]*ssa.Global, 0, len(snap.globals))
+	for g := range snap.globals {
+		gl = append(gl, g)
+	}
+	sort.Slice(gl, func(i, j int) bool {
+		a, b := gl[i], gl[j]
+		if a.Pkg != b.Pkg && a.Pkg != nil && b.Pkg != nil && a.Pkg.Pkg.Path() != b.Pkg.Pkg.Path() {
+			return a.Pkg.Pkg.Path() < b.Pkg.Pkg.Path()
+		}
+		return a.Name() < b.Name()
+	})
+	for _, g := range gl {
+		c.scan(snap.globals[g])
 	}
 	for p, l := range snap.pools {
 		c.scan(p)
@@ -318,8 +330,8 @@ func cloneSnapshot(snap *initSnapshot, tb *term.B) (*initSnapshot, bool, string)
 	}
 	out := &initSnapshot{globals: make(map[*ssa.Global]*Value, len(snap.globals)), inited: map[*ssa.Package]bool{}, uninit: map[string]bool{},
 		onces: map[*Value]bool{}, pools: map[*Value][]Value{}, steps: snap.steps}
-	for g, p := range snap.globals {
-		out.globals[g] = c.ptr(p)
+	for _, g := range gl {
+		out.globals[g] = c.ptr(snap.globals[g])
 	}
 	for k, v := range snap.inited {
 		out.inited[k] = v
